@@ -118,6 +118,9 @@ func (s *Session) Reset() {
 	if s.delivery != nil {
 		s.abort(s.msgCtx)
 	}
+	// The error of a failed deferred MAIL FROM belongs to the transaction
+	// that ends here.
+	s.deliveryErr = nil
 	s.endp.Log.DebugMsg("reset")
 }
 
